@@ -13,7 +13,10 @@ out.append("Measured end-to-end runs on the unchanged tree (16 cores; obligation
 out.append("CrossHair/z3, wall seconds), from `evidence/<id>.json` (last quick run) and `evidence/thorough/<id>.json` (last thorough")
 out.append("run; where the thorough tier of a property was resized after its run the record shows the larger tier that actually ran;")
 out.append("properties without a thorough record were not run end to end in the thorough tier - for those every input of the")
-out.append("thorough bounds was evaluated once in plain Python against the oracle, without the solver, as a harness sanity check):\n")
+out.append("thorough bounds was evaluated once in plain Python against the oracle, without the solver, as a harness sanity check;")
+out.append("the C07 thorough record shows 324/332: the 8 missing obligations were shards whose constants contradict the")
+out.append("precondition (reported as harness errors, exit 2) - they are skipped since; the C17 record shows 4 shards of `arith-p3` that")
+out.append("did not finish in their CPU budget - that condition was made smaller afterwards):\n")
 out.append("| property | quick | thorough |")
 out.append("|---|---|---|")
 for i in range(1, 21):
